@@ -27,6 +27,7 @@ Definition kadd (u v : kvec) : kvec := fun i => u i + v i.
 Definition ksub (u v : kvec) : kvec := fun i => u i - v i.
 Definition kneg (u : kvec) : kvec := fun i => ropp K (u i).
 Definition kouter (u v : kvec) : kmat := fun i j => u i * v j.
+Definition kdot (d : nat) (u v : kvec) : K := ksum (fun i => u i * v i) d.
 Definition keq (d : nat) (A B : kmat) : Prop := forall i j, i < d -> j < d -> A i j = B i j.
 
 Definition cartrot (d : nat) (A S Ai : kmat) : kmat := kmm d A (kmm d S Ai).
